@@ -34,7 +34,7 @@ def register(S):
         ctx.ip.event(ctx.st, "libm", name=name, fn=ctx.fr.fn["path"])
         return ctx.ret(FloatVal(rty.get("bits", 64), term=term, deps=d, lo=lo, hi=hi))
 
-    @S.pat(r"^core::f(32|64)::<impl f(32|64)>::(to_radians|to_degrees|abs|floor|ceil|sqrt|sin|cos|powi|powf|mul_add|round|trunc|atan2|hypot|max|min|rem_euclid|is_nan)$")
+    @S.pat(r"^(core|std)::f(32|64)::<impl f(32|64)>::\w+$")
     def float_method(ctx):
         name = ctx.path.rsplit("::", 1)[1]
         d = frozenset()
@@ -50,6 +50,10 @@ def register(S):
         return ctx.ret(FloatVal(rty.get("bits", 64), term=term, deps=d))
 
     # ------------------------------------------------------------------ fmt
+    @S.on("core::fmt::rt::Argument::<'_>::from_usize")
+    def fmt_argument_usize(ctx):
+        return ctx.ret(Opaque.make("fmtarg", trait="usize", val=ctx.args[0], ty="usize", span_line=0))
+
     @S.pat(r"^core::fmt::rt::Argument::<'_>::new_(display|debug|lower_hex|upper_hex|lower_exp|upper_exp|octal|binary|pointer)$")
     def fmt_argument(ctx):
         kind = ctx.path.rsplit("new_", 1)[1]
@@ -206,7 +210,16 @@ def register(S):
 
     @S.pat(r"^<T as alloc::string::(ToString|SpecToString)>::(to_string|spec_to_string)$|^<str as alloc::string::(SpecToString|ToString)>::")
     def to_string(ctx):
-        return ctx.ret(Opaque.make("string", elems=None, n=IntVal(USIZE, 0, 1 << 40), summary=IntVal.top(IntTy(32, False, "char"))))
+        a = ctx.args[0] if ctx.args else None
+        v = a
+        hops = 0
+        while isinstance(v, RefVal) and hops < 4:
+            try:
+                v = ctx.ip.read_loc(ctx.st, v.loc)
+            except Exception:
+                break
+            hops += 1
+        return ctx.ret(Opaque.make("string", elems=None, n=IntVal(USIZE, 0, 1 << 40), summary=IntVal.top(IntTy(32, False, "char")), src=(v,)))
 
     @S.on("core::fmt::Formatter::<'a>::write_str", "<alloc::string::String as core::fmt::Write>::write_str", "core::fmt::Write::write_str")
     def write_str(ctx):
